@@ -89,6 +89,21 @@ def small_texts():
     return out
 
 
+def small_texts_other():
+    """cells that carry OTHER parameters (every keyword of OTHER_PARAMS once, in three groups of four) next to per-cell
+    data given in the data block / on the cards / mixed"""
+    out = []
+    for g in range(0, len(OTHER_PARAMS), 4):
+        ks = []
+        for kw, numbered, parts, values in OTHER_PARAMS[g:g + 4]:
+            ks.append(kw + ("1" if numbered else "") + (":n" if parts else "") + "=" + values[0])
+        out.append(SMALL.format(c1=ks[0] + " " + ks[1], c2=ks[2], c3=ks[3],
+                                data="imp:n 1 1 0\nimp:p 2 1 0\nvol 3 j 2.5\nu 2 5 2\nlat j 1\nfill j 2\n"))
+        out.append(SMALL.format(c1=f"imp:n=1 {ks[0]} imp:p=2 vol=3 u=2", c2=f"{ks[1]} imp:n,p=1 fill=2 {ks[2]} lat=1", c3=f"imp:n=0 imp:p=0 {ks[3]}", data=""))
+        out.append(SMALL.format(c1=f"{ks[3]} vol=3", c2=f"imp:n,p=1 {ks[0]}", c3=f"{ks[2]} u=6 {ks[1]}", data="imp:n 1 j 0\nimp:p 1 j 0\nu 2 2 j\n"))
+    return out
+
+
 def gen_ops(rng, ncells, mode, numbers, unis, nsurf, length=None, imp_bias=0.0):
     """a VALID history: cell insertions, deletions, reorderings, per-cell data edits and observations"""
     n = ncells
@@ -178,9 +193,45 @@ def shape_importances(rng, gp):
     return kind + ":" + str(gp["imp_share"])
 
 
+# every OTHER parameter a cell card may carry (MCNP manual, cell parameters; the lexer's cell keywords minus the five
+# per-cell classes, LIKE/BUT and TRCL, which genprob has a feature of its own for): MontePy keeps them in the cell's
+# parameters tree only, next to the nodes of the five modifier classes the writer walks.  (keyword, numbered, particles, values)
+OTHER_PARAMS = [("nonu", False, False, ["0", "1", "2"]), ("unc", False, True, ["0", "1"]), ("tmp", None, False, ["2.53e-8", "3.1e-8"]),
+                ("pwt", False, False, ["1", "-1"]), ("ext", False, True, ["0.5", "0"]), ("fcl", False, True, ["1", "0.5"]),
+                ("wwn", True, True, ["0.5", "-1"]), ("dxc", True, True, ["0.5", "1"]), ("pd", True, False, ["0.5", "1"]),
+                ("elpt", False, True, ["1e-3", "1e-2"]), ("cosy", False, False, ["1", "2"]), ("bflcl", False, False, ["1", "0"])]
+
+
+def other_param(rng, mode, kw=None):
+    """one other cell parameter (key, value): numbered / with particle designators where the keyword takes them"""
+    kw, numbered, parts, values = rng.choice(OTHER_PARAMS) if kw is None else [r for r in OTHER_PARAMS if r[0] == kw][0]
+    key = kw
+    if numbered or (numbered is None and rng.random() < 0.5):
+        key += str(rng.randint(1, 2))
+    if parts:
+        ps = [rng.choice(mode)] if rng.random() < 0.75 or len(mode) < 2 else rng.sample(mode, 2)
+        key += ":" + ",".join(ps)
+    return key, rng.choice(values)
+
+
+def shape_other_params(rng, gp):
+    """cells that carry OTHER parameters next to (or instead of) their per-cell data, whichever block gives those:
+    in half of the problems every cell gets 0-2 of them (keys distinct on one card)"""
+    if rng.random() < 0.5:
+        return
+    for c in gp["cells"]:
+        extra = dict(c.get("extra_params") or [])
+        for _ in range(rng.choice([0, 1, 1, 2])):
+            k, v = other_param(rng, gp["mode"])
+            extra.setdefault(k, v)
+        if extra:
+            c["extra_params"] = sorted(extra.items())
+
+
 def gen_problem(rng):
     gp = genprob.generate(rng, features=FEATURES)
     shape_importances(rng, gp)
+    shape_other_params(rng, gp)
     style = "plain" if rng.random() < 0.85 else "random"
     limit = 128 if rng.random() < 0.8 else 80
     text = genprob.render(gp, rng, limit, style)
@@ -218,6 +269,16 @@ def gen_cases(chk):
                 continue
             # the first six shapes under all 32 flag vectors; the importance shapes under 8 (IMP x VOL x the rest)
             for fl in (ALL_FLAGS if nshape < 6 else few_flags):
+                cases.append({"text": text, "limit": 128, "ops": [["flags", fl], ["write"]] + ops + [["write"]], "src": "small"})
+                nsmall += 1
+    # 2b. the same for cells that carry OTHER parameters: 9 shapes x the operations x 8 flag vectors (IMP x U x the rest)
+    u_flags = [[i, b, u, b, b] for i in (False, True) for u in (False, True) for b in (False, True)]
+    for text in small_texts_other():
+        for ops in alphabet:
+            if any(o[0] == "imp" and o[2] == "e" for o in ops):
+                continue
+            ops = [o if o[0] != "append" else ["append", dict(o[1], imp={k: v for k, v in o[1]["imp"].items() if k != "e"})] for o in ops]
+            for fl in u_flags:
                 cases.append({"text": text, "limit": 128, "ops": [["flags", fl], ["write"]] + ops + [["write"]], "src": "small"})
                 nsmall += 1
     # 3. MontePy's own fixtures: every flag vector, then the opposite vector, then back (switching back and forth)
@@ -634,7 +695,7 @@ def run(chk):
 
     cases = gen_cases(chk)
     chk.exhaustive = {"flag_vectors": "all 32 for every generated problem, small shape and (thorough) fixture",
-                      "small_shapes": "6 shapes x 21 single operations x 32 flag vectors + 5 importance shapes x 21 x 8, each: flags, write, operation, write"}
+                      "small_shapes": "6 shapes x 21 single operations x 32 flag vectors + 5 importance shapes x 21 x 8 + 9 shapes with other cell parameters (every keyword of OTHER_PARAMS) x 20 x 8, each: flags, write, operation, write"}
     for c in cases:
         c.pop("_", None)
     all_cases = cases
